@@ -151,7 +151,12 @@ def place_supernet(torch, m, spec, rng, g):
             branches.append(alt)
         if nd['cin'] == nd['cout'] and nd['k'] == 'conv2d' and nd['padding'] == 'same' and rng.random() < 0.4:
             branches.append(nn.Identity())
-        blk = SuperNetModule(branches)
+        # NON-DEFAULT selection options are part of the user's model: hard (one-hot) selection, Gumbel sampling, a pre-set
+        # softmax temperature — a wrapper that resets them changes the function the user's model computes
+        opts = {'hard_softmax': rng.random() < 0.5, 'gumbel_softmax': rng.random() < 0.4}
+        blk = SuperNetModule(branches, **opts)
+        if rng.random() < 0.5:
+            blk.sn_combiner.softmax_temperature = rng.choice([0.25, 0.5, 2.0, 5.0])
         with torch.no_grad():
             for mod in blk.modules():
                 if mod is old:
@@ -167,7 +172,7 @@ def place_supernet(torch, m, spec, rng, g):
                     mod.bias.copy_(torch.randn(mod.bias.shape, generator=g))
             blk.sn_combiner.alpha.copy_(torch.randn(blk.sn_combiner.alpha.shape, generator=g))
         m.layers['n%d' % i] = blk
-        done.append((i, len(branches)))
+        done.append((i, len(branches), opts['hard_softmax'], opts['gumbel_softmax'], blk.sn_combiner.softmax_temperature))
     return done
 
 
@@ -338,6 +343,21 @@ def snapshot(model):
     return sd, flags
 
 
+def module_options(model):
+    """non-tensor settings of the user's modules that decide what forward() computes (not in state_dict, not .training)"""
+    out = {}
+    for n, mod in model.named_modules():
+        for a in ('hard_softmax', 'softmax_temperature', '_softmax_temperature', 'fold_bn', 'binarization_threshold', 'discrete_cost', 'eps', 'momentum', 'p'):
+            if a in vars(mod):
+                v = vars(mod)[a]
+                if isinstance(v, (bool, int, float, type(None))):
+                    out['%s.%s' % (n, a)] = v
+        f = vars(mod).get('sample_alpha')
+        if f is not None:
+            out['%s.sample_alpha' % n] = getattr(f, '__name__', str(f))
+    return out
+
+
 def own_mode_run(torch, model, xs, seed):
     """output of a copy of the model in the mode (flags) it is in, with a fixed random stream, and the copy's state
     afterwards (training-mode BatchNorm updates its statistics, Dropout draws a mask)"""
@@ -448,6 +468,7 @@ def run_case(torch, seed, cfg):
         o['flipped'] = sorted(set(flipped))
         sd0, fl0 = snapshot(m)
         own0 = own_mode_run(torch, m, xs, seed)
+        opt0 = module_options(m)
         user_mods = dict(m.named_modules())
         leaf_names = [n for n, mod in user_mods.items() if n and not isinstance(mod, (nn.ModuleDict, nn.ModuleList)) and n.startswith('layers.')]
         o['mods'] = module_list(torch, m, method, excl)
@@ -483,6 +504,8 @@ def run_case(torch, seed, cfg):
         ob['user_flags_before'] = fl0
         ob['user_flags_after'] = {n: fl1.get(n) for n in fl0}
         ob['user_root_training_after'] = bool(m.training)
+        opt1 = module_options(m)
+        ob['options_changed'] = sorted('%s: %s -> %s' % (k, opt0[k], opt1.get(k)) for k in opt0 if opt1.get(k) != opt0[k])
         own1 = own_mode_run(torch, m, xs, seed)
         ob['d_user_own_mode'] = maxdiff(torch, own0[0], own1[0])
         ob['own_mode_state_diff'] = sd_diff(torch, own0[1], {k: v for k, v in own1[1].items() if k in own0[1]})[0]
@@ -637,6 +660,8 @@ def oracle(o):
     if method in ('pit', 'mps'):
         if ob['wrapper_training'] != ob['found_training'] or ob['seed_training'] != ob['found_training'] or ob['seed_sub_unexpected']:
             f.append(('mode-not-kept:' + method, 'found training=%s; wrapper %s seed %s; seed sub-modules with another flag than the one found (shared with the user model: its flag, new: the root mode): %s' % (ob['found_training'], ob['wrapper_training'], ob['seed_training'], ob['seed_sub_unexpected'][:6])))
+    if method in ('pit', 'sn') and ob.get('options_changed'):
+        f.append(('user-model-options-altered:' + tag, 'settings of the modules of the user model were overwritten by the conversion: %s' % ob['options_changed'][:6]))
     if method in ('pit', 'sn') and (not ob['d_user_own_mode'] <= 0.0 or ob['own_mode_state_diff']):
         f.append(('user-model-own-mode-output-altered:' + tag, 'run in the mode it was handed over in (flags %s), the user model gives another output / updates other statistics than before: max diff %r, state differing after the run %s' % (
             'mixed: flipped ' + str(o.get('flipped', [])[:4]) if o.get('flipped') else 'uniform', ob['d_user_own_mode'], ob['own_mode_state_diff'][:4])))
